@@ -479,11 +479,13 @@ func execC12Seq(in sx.V) sx.V {
 	if v, ok := c12Cache.Load("c12.seq " + in.String()); ok {
 		return v.(sx.V)
 	}
-	if acts := in.List[1].List; len(acts) == 1 && (acts[0].Head() == "alive" || acts[0].Head() == "outage" || acts[0].Head() == "pinger") {
+	if acts := in.List[1].List; len(acts) == 1 && (acts[0].Head() == "alive" || acts[0].Head() == "outage" || acts[0].Head() == "pinger" || acts[0].Head() == "blackhole") {
 		var fails []c12Fail
 		var bad string
 		if acts[0].Head() == "alive" {
 			_, fails, bad = runC12Alive(acts[0].List[1].I())
+		} else if acts[0].Head() == "blackhole" {
+			_, fails, bad = runC12BlackHole(acts[0].List[1].I(), acts[0].List[2].I())
 		} else if acts[0].Head() == "pinger" {
 			_, fails, bad = runC12Pinger(acts[0].List[1].I() == 1)
 		} else {
